@@ -10,7 +10,8 @@ exabgp.reactor.api.processes only, by a scripted pipe: every call takes the next
    operations (evaluated by vm_compute; Coq returns the indexes of the cases that differ);
  * property oracle (no model involved): without pipe errors, delivered ++ queued = the records in the order written,
    and after enough generous flushes everything was delivered, whole and once;
- * tie: BATCH_SIZE in the source = Model_WriteQueue.BATCH.
+ * tie: the batch size and the put-back discipline (front / back, after a partial write and after EAGAIN) of the model
+   are regenerated from flush_write_queue by translate/t14_writequeue.py.
 """
 import ast
 import asyncio
@@ -168,9 +169,9 @@ def run_pass(run, tier, seed):
         kind = 'error' if i % 10 == 9 else 'plain'
         cases.append((kind, gen_case(rng, kind)))
 
-    bs = batch_size_in_source()
-    run.obligation('tie: BATCH_SIZE of Processes.flush_write_queue (read from the source) = Model_WriteQueue.BATCH = 10', bs == 10,
-                   f'BATCH_SIZE in the source: {bs!r}')
+    # BATCH, PARTIAL_FRONT and AGAIN_FRONT of the model are regenerated from the source by T14 (declared translator of
+    # C05, C13 and C14); the value is recorded here for the evidence only
+    run.coverage['api_write_queue_batch_size_in_source'] = batch_size_in_source()
 
     observed, oracle_bad, crashed = [], [], []
     for k, (kind, ops) in enumerate(cases):
